@@ -259,6 +259,9 @@ def case_api(ctx, inp):
         if (k in ("idxmin", "idxmax") and not inp.get("column") and p["skipna"] and isinstance(e, ValueError)
                 and "all NA" in str(e) and _has_allna_column_partition(df, inp["lens"])):
             sig = "api:idxminmax:dataframe:allna-column-partition:ValueError"
+        if (k in ("idxmin", "idxmax") and not inp.get("column") and not p["skipna"] and inp.get("with_str")
+                and isinstance(e, ValueError) and "NA value with skipna=False" in str(e)):
+            sig = "api:idxminmax:dataframe:string-column:skipna=False:ValueError"
         ctx.fail(f"{k}({p}) raised {type(e).__name__}", sig=sig, observed=f"{type(e).__name__}: {e}"[:300])
         return
     try:
